@@ -116,6 +116,49 @@ Section ListHeader.
     lh_emit header (lh_start s) (lh_end s) (lh_qstart s) (length header) (lh_out s).
 End ListHeader.
 
+(** ** Reference grammar for [list_header_wf]: RFC 7231 [#( codings [ weight ] )] with OWS.
+    A member is OWS name [ OWS ";" OWS "q=" qvalue ] OWS; members are separated by ",". *)
+Record member := mkMember {
+  mb_pre : bytes;                              (* OWS before the name *)
+  mb_name : bytes;
+  mb_weight : option (bytes * bytes * bytes);  (* OWS before ';', OWS after ';', text of the qvalue *)
+  mb_post : bytes                              (* OWS after the member *)
+}.
+Definition weight_text (w : option (bytes * bytes * bytes)) : bytes :=
+  match w with
+  | Some (w1, w2, qv) => w1 ++ [c_semi] ++ w2 ++ [c_q; c_eq] ++ qv
+  | None => []
+  end.
+Definition member_text (m : member) : bytes := mb_pre m ++ mb_name m ++ weight_text (mb_weight m) ++ mb_post m.
+Fixpoint members_text (ms : list member) : bytes :=
+  match ms with
+  | [] => []
+  | [m] => member_text m
+  | m :: r => member_text m ++ [c_comma] ++ members_text r
+  end.
+(** the reference parse: the name, and the value of the weight (1 without weight or when it does not parse) *)
+Definition member_ref (parse_q : bytes -> option qclass) (m : member) : bytes * qclass :=
+  (mb_name m,
+   match mb_weight m with
+   | Some (_, _, qv) => match parse_q qv with Some c => c | None => QOne end
+   | None => QOne
+   end).
+(** characters a number may consist of: digits . + - e E and the letters of inf / nan / infinity *)
+Definition numberish (c : N) : bool :=
+  is_digit c || existsb (N.eqb c) [43; 45; 46; 69; 101; 73; 105; 78; 110; 70; 102; 65; 97; 84; 116; 89; 121].
+Definition sep_free (c : N) : bool := negb (is_ows c || (c =? c_comma) || (c =? c_semi)).
+(** a name: non-empty, no OWS, ',' or ';', and not made of number characters only (a member without
+    weight is given the value of the text in front of it when that text parses as a number) *)
+Definition name_ok (s : bytes) : bool :=
+  negb (beq s []) && forallb sep_free s && existsb (fun c => negb (numberish c)) s.
+Definition qv_ok (s : bytes) : bool := forallb (fun c => negb (is_ows c || (c =? c_comma) || (c =? c_eq))) s.
+Definition member_ok (m : member) : bool :=
+  forallb is_ows (mb_pre m) && name_ok (mb_name m) && forallb is_ows (mb_post m)
+  && match mb_weight m with
+     | Some (w1, w2, qv) => forallb is_ows w1 && forallb is_ows w2 && qv_ok qv
+     | None => true
+     end.
+
 (* ------------------------------------------------------------------------------------ *)
 (** * Media types and [do_compress]                                                       *)
 
